@@ -161,3 +161,120 @@ func c17Apps(c *core.Ctx) {
 		c.Sample(map[string]any{"case": cs})
 	})
 }
+
+// ---- bound containers (maps, lists) are the component's own: changing one after the start does
+// not change what another component was given, what the configuration answers, or what a
+// component bound later receives
+
+type c17Owner struct {
+	M map[string]any `prefix:"m"`
+	L []any          `prefix:"li"`
+}
+
+func (*c17Owner) Naming() string { return "a-owner" }
+
+type c17OtherPrefix struct {
+	M map[string]any `prefix:"m"`
+	L []any          `prefix:"li"`
+}
+type c17OtherValue struct {
+	M map[string]any `value:"${m}"`
+	L []any          `value:"${li}"`
+}
+type c17OtherProp struct {
+	M map[string]any `prop:"m"`
+	L []any          `prop:"li"`
+}
+type c17LateOther struct {
+	definition.LazyInitComponent
+	M map[string]any `prefix:"m"`
+	L []any          `prefix:"li"`
+}
+
+func (*c17LateOther) Naming() string { return "late-other" }
+
+type c17AliasCase struct {
+	Other string `json:"other_binding"` // prefix value prop
+}
+
+func c17Alias(c *core.Ctx) {
+	gen := func(yield func(c17AliasCase) bool) {
+		for _, o := range []string{"prefix", "value", "prop"} {
+			if !yield(c17AliasCase{o}) {
+				return
+			}
+		}
+	}
+	Cases(c, gen, func(c *core.Ctx, cs c17AliasCase) {
+		doc := "m:\n  a: x\n  n: 3\nli: [1, 2]\n"
+		owner, late := &c17Owner{}, &c17LateOther{}
+		var other any
+		var view func() (map[string]any, []any)
+		switch cs.Other {
+		case "prefix":
+			x := &c17OtherPrefix{}
+			other, view = x, func() (map[string]any, []any) { return x.M, x.L }
+		case "value":
+			x := &c17OtherValue{}
+			other, view = x, func() (map[string]any, []any) { return x.M, x.L }
+		default:
+			x := &c17OtherProp{}
+			other, view = x, func() (map[string]any, []any) { return x.M, x.L }
+		}
+		show := func(m map[string]any, l []any) string { return fmt.Sprintf("m=%v li=%v", c17Norm(m), c17Norm(l)) }
+		c.S.Programs++
+		c.S.Nontrivial++
+		c.S.Evaluations++
+		c.S.States++
+		c.S.Transitions += 4
+		key := "C17/aliasing/" + cs.Other
+		bad := ""
+		var a *app.App
+		vsync.Chooser, vsync.OrderHook = nil, nil
+		vsync.Begin()
+		pan := scen.Protect(func() {
+			a = app.NewApp()
+			if err := a.Run(app.SetConfigLoader(loader.NewRawLoader([]byte(doc))), app.SetComponents(owner, other, late)); err != nil {
+				bad = "start-up failed: " + scen.FirstLine(err)
+				return
+			}
+			m0, l0 := view()
+			before := show(m0, l0)
+			cfgBefore := fmt.Sprintf("%v %v", c17Norm(a.Get("m")), c17Norm(a.Get("li")))
+			// the owner changes what it was given
+			owner.M["zz"] = "mutated"
+			delete(owner.M, "a")
+			if len(owner.L) > 0 {
+				owner.L[0] = "mutated"
+			}
+			m1, l1 := view()
+			if after := show(m1, l1); after != before {
+				bad = fmt.Sprintf("after the first component changed its own map / list, the component bound by %s holds [%s], before [%s]", cs.Other, after, before)
+				return
+			}
+			if cfgAfter := fmt.Sprintf("%v %v", c17Norm(a.Get("m")), c17Norm(a.Get("li"))); cfgAfter != cfgBefore {
+				bad = fmt.Sprintf("after a component changed its own map / list, the configuration answers [%s], before [%s]", cfgAfter, cfgBefore)
+				return
+			}
+			if _, err := a.GetComponentByName("late-other"); err != nil {
+				bad = "look-up of the lazily created component failed: " + scen.FirstLine(err)
+				return
+			}
+			if got := show(late.M, late.L); got != before {
+				bad = fmt.Sprintf("a component bound after another one changed its own map / list holds [%s], configured [%s]", got, before)
+			}
+		})
+		vsync.End()
+		switch {
+		case pan != "":
+			c.Outcome("aliasing/panic")
+			c.Report(key, "panic", pan, cs)
+		case bad != "":
+			c.Outcome("aliasing/shared")
+			c.Report(key, "value-changed", bad, cs)
+		default:
+			c.Outcome("aliasing/independent")
+		}
+		c.Sample(map[string]any{"case": cs})
+	})
+}
